@@ -13,8 +13,9 @@ import tempfile
 
 
 def build_tree(d):
-    root = os.path.join(d, "root")
-    out = os.path.join(d, "outside")
+    base = os.path.join(d, "base")
+    root = os.path.join(base, "root")
+    out = os.path.join(base, "outside")
     os.makedirs(root)
     os.makedirs(out)
 
@@ -39,6 +40,9 @@ def build_tree(d):
     os.symlink(os.path.join(out, "od"), os.path.join(root, "d1", "ld"))         # link to dir at level 1
     os.symlink("../f0.bin", os.path.join(root, "d1", "rel.bin"))                # relative link to a file inside
     os.symlink("nowhere", os.path.join(root, "dangling"))
+    # a directory link whose target is an ancestor *above* the scanned root: with -L the files next to the root become reachable
+    w(os.path.join(base, "other", "b.bin"), 20)
+    os.symlink(base, os.path.join(root, "d1", "d2", "up"))
     return root
 
 
